@@ -22,7 +22,7 @@ type c15Case struct {
 }
 
 var c15EditKinds = []string{"EP", "EC", "EL"}
-var c15Policies = []string{"adv", "eq", "back", "zero"}
+var c15Policies = []string{"adv", "sub", "eq", "back", "zero"} // sub: the mtime advances by a millisecond only (same second, usually the same length)
 var c15Other = []string{"TP", "TC", "TL", "TS", "TB", "IP", "IC", "FP", "BP", "FC", "FL"} // F*: front-matter-only edit, BP: body-only edit (mtime advances)
 var c15Renders = []string{"R1", "R2", "R3", "R4"}
 
@@ -73,7 +73,7 @@ func init() {
 
 func (p *c15) ID() string { return "C15" }
 func (p *c15) Rule() string {
-	return "histories over a 27-symbol alphabet {edit page/component/layout x mtime policy (advance, equal, backwards, zero), front-matter-only and body-only edits, delete/recreate page/component/layout, create/delete a layout next to the page that shadows layouts/lay.vuego, delete/recreate the default layouts/base.vuego, make page/component invalid (bad YAML), render the page via Load().Render / RenderFile / Vue.Render, render a second page that names no layout} on a page with front-matter + include + layout + a named slot template that the layout consumes; exhaustive for length <=3 (quick) / <=4 (thorough) each followed by the four renders, plus seeded histories of length 6-20; after every render step the long-lived engine's (bytes, error-ness) is compared with a fresh engine; cache hit/miss/store hook counts prove which comparisons were answered from the cache; non-trivial = history containing at least one edit followed by a render; distinct by the op list"
+	return "histories over a 30-symbol alphabet {edit page/component/layout x mtime policy (advance by a second, advance by a millisecond, equal, backwards, zero), front-matter-only and body-only edits, delete/recreate page/component/layout, create/delete a layout next to the page that shadows layouts/lay.vuego, delete/recreate the default layouts/base.vuego, make page/component invalid (bad YAML), render the page via Load().Render / RenderFile / Vue.Render, render a second page that names no layout} on a page with front-matter + include + layout + a named slot template that the layout consumes; exhaustive for length <=3 (quick) / <=4 (thorough) each followed by the four renders, plus seeded histories of length 6-20; after every render step the long-lived engine's (bytes, error-ness) is compared with a fresh engine; cache hit/miss/store hook counts prove which comparisons were answered from the cache; non-trivial = history containing at least one edit followed by a render; distinct by the op list"
 }
 
 func (p *c15) exh(ctx core.Ctx) int {
@@ -226,6 +226,11 @@ func (w *c15World) write(file string, valid bool, policy string) {
 	switch {
 	case !had:
 		mt = time.Unix(1700000000, 0).UTC()
+	case policy == "sub":
+		mt = prev.Add(time.Millisecond)
+		if prev.IsZero() {
+			mt = time.Unix(1700000000+int64(w.version), 1000000).UTC()
+		}
 	case policy == "adv":
 		mt = prev.Add(time.Second)
 		if prev.IsZero() {
